@@ -37,12 +37,15 @@ inductive V (α : Type)
   | dlist (l : List (Nat × List α))
   | cmp (c : Cmp)
   | list (l : List α)                -- a Python list of floats (results of the offline visitor)
+  | rat (q : Rat)                    -- fractions.Fraction / exact numbers of the unit arithmetic
+  | str (s : String)                 -- unit strings ('' / 's' / 'ms' / 'us' / 'ns')
+  | pair (a b : V α)                 -- a 2-tuple
   deriving Repr, Inhabited
 
-inductive UnOp | neg | abs | sqrt | exp | ln | not | truthy
+inductive UnOp | neg | abs | sqrt | exp | ln | not | truthy | frac | numer | denom | toInt | unitNs
   deriving DecidableEq, Repr, Inhabited
 
-inductive BinOp | add | sub | mul | div | min | max | pow | log | lt | le | gt | ge | eq | ne | or | and
+inductive BinOp | add | sub | mul | div | min | max | pow | log | lt | le | gt | ge | eq | ne | or | and | mod
   deriving DecidableEq, Repr, Inhabited
 
 inductive E
@@ -65,6 +68,7 @@ inductive E
   | compZip (body : E) (x y : String) (a b : E)        -- [body for x, y in zip(a, b)]
   | agg (isMax : Bool) (e : E)       -- min(e) / max(e) of one list
   | reversed (e : E)                 -- reversed(e)
+  | tuple (a b : E)                  -- (a, b)
   | unsupported (what : String)
   deriving Repr, Inhabited
 
@@ -129,6 +133,13 @@ def asList : V α → Option (List α)
   | .dlist [] => some []
   | _ => none
 
+/-- Exact numbers: a Fraction, or an integer next to a Fraction (`ratOf` is only consulted when the two operands are
+    not both integers and not both floats). -/
+def ratOf : V α → Option Rat
+  | .rat q => some q
+  | .int n => some n
+  | _ => none
+
 def numOf : V α → Except PyErr α
   | .num x => .ok x
   | _ => .error .type
@@ -152,6 +163,18 @@ def evalUn : UnOp → V α → Except PyErr (V α)
   | .not, .bool b => .ok (.bool (!b))
   | .truthy, .none => .ok (.bool false)
   | .truthy, .bool b => .ok (.bool b)
+  | .neg, .rat q => .ok (.rat (-q))
+  | .frac, .rat q => .ok (.rat q)                       -- Fraction(x)
+  | .frac, .int n => .ok (.rat n)
+  | .numer, .rat q => .ok (.int q.num)                  -- x.numerator
+  | .denom, .rat q => .ok (.int q.den)                  -- x.denominator
+  | .numer, .int n => .ok (.int n)
+  | .denom, .int _ => .ok (.int 1)
+  | .toInt, .rat q => .ok (.int (if 0 ≤ q.num then q.num / q.den else -((-q.num) / q.den)))   -- int(x): towards zero
+  | .toInt, .int n => .ok (.int n)
+  | .unitNs, .str u =>                                  -- self.ast.U[u]
+      if u = "s" then .ok (.int 1000000000) else if u = "ms" then .ok (.int 1000000)
+      else if u = "us" then .ok (.int 1000) else if u = "ns" then .ok (.int 1) else .error .key
   | _, _ => .error .type
 
 /-- Only the integer literal `0` is ever mixed with floats. -/
@@ -188,11 +211,30 @@ def evalBin (op : BinOp) (a b : V α) : Except PyErr (V α) :=
   | .eq, (.int x, .int y) => .ok (.bool (decide (x = y)))
   | .or, (.bool x, .bool y) => .ok (.bool (x || y))
   | .and, (.bool x, .bool y) => .ok (.bool (x && y))
-  | .add, (x, y) =>
-      match asList x, asList y with
-      | some a, some b => .ok (.list (a ++ b))           -- list concatenation
-      | _, _ => .error .type
-  | _, _ => .error .type
+  | .max, (.int x, .int y) => .ok (.int (if x < y then y else x))      -- max / min of two Python ints (horizons)
+  | .min, (.int x, .int y) => .ok (.int (if y < x then y else x))
+  | .mod, (.int x, .int y) => if y = 0 then .error .value else .ok (.int (x % y))
+  | .div, (.int x, .int y) => if y = 0 then .error .value else .ok (.rat ((x : Rat) / (y : Rat)))   -- only on exact numbers
+  | op, (x, y) =>
+      match ratOf x, ratOf y with
+      | some a, some b =>
+          -- exact arithmetic (Fraction with Fraction / int)
+          match op with
+          | .add => .ok (.rat (a + b))
+          | .sub => .ok (.rat (a - b))
+          | .mul => .ok (.rat (a * b))
+          | .div => if b = 0 then .error .value else .ok (.rat (a / b))
+          | .lt => .ok (.bool (decide (a < b)))
+          | .le => .ok (.bool (decide (a ≤ b)))
+          | .gt => .ok (.bool (decide (b < a)))
+          | .ge => .ok (.bool (decide (b ≤ a)))
+          | .eq => .ok (.bool (decide (a = b)))
+          | .ne => .ok (.bool (!decide (a = b)))
+          | _ => .error .type
+      | _, _ =>
+          match op, asList x, asList y with
+          | .add, some a, some b => .ok (.list (a ++ b))           -- list concatenation
+          | _, _, _ => .error .type
 
 def evalIdx : V α → V α → Except PyErr (V α)
   | .deque _ l, .int i => if i < 0 then .error .index else (idx l i.toNat).map .num
@@ -229,6 +271,7 @@ def evalE (env : Env α) : E → Except PyErr (V α)
   | .len e => do
       match (← evalE env e) with
       | .deque _ l => .ok (.int l.length)
+      | .str u => .ok (.int u.length)
       | v => match asList v with
              | some l => .ok (.int l.length)
              | none => .error .type
@@ -270,6 +313,10 @@ def evalE (env : Env α) : E → Except PyErr (V α)
       match asList (← evalE env e) with
       | some l => .ok (.list l.reverse)
       | none => .error .type
+  | .tuple a b => do
+      let x ← evalE env a
+      let y ← evalE env b
+      pure (.pair x y)
   | .unsupported _ => .error .other
 
 /-- `target.append(v)`. -/
